@@ -347,9 +347,25 @@ func (g *DocGen) val(t *Ty, depth int) string {
 				names = append(names, f.name)
 			}
 		}
+		twin := ""
+		if g.r.P(1, 4) {
+			// n and m: the same number in two representations
+			v := g.r.Intn(20)
+			reps := []string{jnum("jn", strconv.Itoa(v)+".0"), jnum("jn", strconv.Itoa(v)), jnum("f64", strconv.Itoa(v)), jnum("int", strconv.Itoa(v)), jnum("jn", strconv.Itoa(v)+"e0"), jnum("jn", strconv.Itoa(v)+".00")}
+			i := g.r.Intn(len(reps))
+			j := (i + 1 + g.r.Intn(len(reps)-1)) % len(reps)
+			twin = reps[i] + "|" + reps[j]
+		}
 		return g.obj(names, func(k string) string {
 			if k == "tag" {
 				return jsonString(g.tag)
+			}
+			if twin != "" && (k == "n" || k == "m") {
+				parts := strings.Split(twin, "|")
+				if k == "n" {
+					return parts[0]
+				}
+				return parts[1]
 			}
 			for _, f := range docFields {
 				if f.name == k {
@@ -436,6 +452,15 @@ func GenFamilyExpr(r *Rng, fam string) *Expr {
 			e.C = append(e.C, part())
 		}
 	case "to_string":
+		if r.P(1, 2) {
+			// several numbers stringified in one evaluation (equal values may be
+			// written differently in the document)
+			e = &Expr{K: KHash, Keys: []string{"x", "y", "z"}, C: []*Expr{fn("to_string", field("n")), fn("to_string", field("m")), fn("to_string", pick(r, []*Expr{numLit(r), field("n"), mk(KSub, &Expr{K: KIndex, C: []*Expr{field("nums")}, N: []int{0}}, nil)}))}}
+			if e.C[2].C[0].K == KSub {
+				e.C[2].C[0] = &Expr{K: KIndex, C: []*Expr{field("nums")}, N: []int{0}}
+			}
+			break
+		}
 		e = fn("to_string", pick(r, []*Expr{obj(), arr(), str(), &Expr{K: KRoot}}))
 	case "contains":
 		e = fn("contains", pick(r, []*Expr{arr(), str()}), pick(r, []*Expr{strLit(r), numLit(r), field("n")}))
@@ -629,7 +654,7 @@ func strLit(r *Rng) *Expr {
 	if r.P(1, 25) {
 		// a raw string whose body is byte-identical to the body of a quoted
 		// identifier used elsewhere: raw strings keep the backslash
-		return &Expr{K: KStr, S: pick(r, []string{`t\tb`, `q\"t`, `\u00e9`, `a\nb`}), F: []bool{true}}
+		return &Expr{K: KStr, S: pick(r, []string{`t\tb`, `q\"t`, `\u00e9`, `a\nb`, `it\'s  here`, `it\'s here`, `a  b`, "a\tb", "a b"}), F: []bool{true}}
 	}
 	s := pick(r, []string{"alpha", "a", "g1", "g2", "x", "é", ",", "b", ""})
 	if r.P(1, 3) {
@@ -1375,10 +1400,14 @@ func GenExpr(r *Rng, b Bias) *Expr {
 	}
 	if r.P(1, 50) {
 		// deeply nested text (parser recursion, depth guards)
-		n := pick(r, []int{120, 300, 450})
+		n := pick(r, []int{120, 300, 450, 1100})
 		op, cl := "(", ")"
 		if r.P(1, 3) {
 			op, cl = "[", "]"
+		}
+		if r.P(1, 4) {
+			// a long chain instead of nesting: a.a.a....
+			return &Expr{K: KRaw, S: pick(r, []string{"rmap", "n", "recs[0]"}) + strings.Repeat(pick(r, []string{".a", ".pt", "[0]"}), n)}
 		}
 		return &Expr{K: KRaw, S: strings.Repeat(op, n) + e.Text() + strings.Repeat(cl, n)}
 	}
